@@ -88,8 +88,14 @@ def gen_case(tier, seed, k):
             L += ["read_and_load_basis p0 " + f1, "get_basis_array p0"]
     else:
         # the problem's own basis: write with B == NULL, then keep using the problem
-        L += [rnd.choice(["opt_primal p0", "opt_dual p0"]), "get_basis_array p0", "write_basis p0 - " + f1, "get_basis_array p0",
-              "read_basis p0 " + f1 + " b1"]
+        L += [rnd.choice(["opt_primal p0", "opt_dual p0"])]
+        if rnd.random() < 0.5 and m.nrows:
+            # another basis is loaded after the solve: the stored basis is now that one, the working basis inside the simplex
+            # still the solver's; what is written (and what stays stored) has to be the loaded one
+            cs, rs = sf.random_basis(rnd, m)
+            L += [rnd.choice(["load_basis_array p0 %s %s" % (cs or "-", rs), "make_basis b5 %d %d %s %s\nload_basis p0 b5" % (m.ncols, m.nrows, cs or "-", rs)])]
+            L = [x for ln in L for x in ln.split("\n")]
+        L += ["get_basis_array p0", "write_basis p0 - " + f1, "get_basis_array p0", "read_basis p0 " + f1 + " b1"]
         for _ in range(rnd.randint(1, 3)):
             L.append(rnd.choice(["opt_dual p0", "opt_primal p0", "tableau p0", "write_basis p0 - @W@/b2.bas", "get_basis p0 b3", "dumpsol p0", "roundtrip_basis_norms p0"]))
         L += ["get_basis_array p0", "write_basis p0 - @W@/b3.bas", "read_basis p0 @W@/b3.bas b4"]
@@ -235,7 +241,7 @@ def chunk(payload):
 RULE = ("problems with valid LP names x bases {returned by QSexact_solver / mpq_QSopt_primal/dual; random type-consistent bases incl. ranged rows at upper and free "
         "columns; the problem's own basis written with B=NULL}: written with QSwrite_basis (plain/.gz/.bz2), read back with QSread_basis / "
         "QSread_and_load_basis and compared (same basic set, same at-upper set, free<->lower allowed for free columns), exact dual status and dual objective of "
-        "both bases compared; own-basis cases continue with solves, tableau queries and a second write/read; `reload` cases: zero objective (every primal-feasible basis optimal), basis A solved and written, problem moved to basis B with another solution, file loaded back (QSread_and_load_basis or QSread_basis+QSload_basis) and solved: the solution must be A's; own-basis mode also runs the get/load basis+row-norms round trip; non-trivial = a basis was available; distinct = hash(script)")
+        "both bases compared; own-basis cases (half of them after loading another basis on top of the solver's) continue with solves, tableau queries and a second write/read; `reload` cases: zero objective (every primal-feasible basis optimal), basis A solved and written, problem moved to basis B with another solution, file loaded back (QSread_and_load_basis or QSread_basis+QSload_basis) and solved: the solution must be A's; own-basis mode also runs the get/load basis+row-norms round trip; non-trivial = a basis was available; distinct = hash(script)")
 
 
 def run_check(prop, tier, seed):
